@@ -103,3 +103,9 @@ def _thrift_dev(e, c):
         return False
     m = re.search(r"known-deviations=([a-z0-9,]*)", c.oracle)
     return bool(m) and e.get("deviation") in m.group(1).split(",")
+
+
+@matcher("fn-suffix")
+def _fn_suffix(e, c):
+    """the case belongs to a type-shape class identified by the harness (suffix of the case function name)"""
+    return c.fn.endswith(e.get("suffix", "\0"))
